@@ -19,6 +19,7 @@ import (
 )
 
 var verifCorpus = []struct{ name, src string }{
+	{"attachments", "define i32 @f(i32 %x) !a1 !2 {\n\t%y = add i32 %x, 1, !a !12, !a1 !2\n\t%z = add i32 %y, 1, !a1 !12, !a !2\n\tret i32 %z, !b !1\n}\n\n!1 = !{i32 1}\n!2 = !{i32 2}\n!12 = !{i32 12}\n"},
 	{"attrgroups-merged", "define void @f() #0 {\n\tret void\n}\n\ndefine void @g() #1 {\n\tcall void @f() #0\n\tret void\n}\n\nattributes #0 = { nounwind }\nattributes #1 = { cold }\nattributes #0 = { readnone }\n"},
 	{"recursive-types", `%list = type { i32, %list* }
 %a = type { %b* }
@@ -447,6 +448,24 @@ func TestVerifC04(t *testing.T) {
 			}
 		}()
 	}
+	// named-type aliases: every type definition of the text is listed under its own name, once
+	for _, c := range verifCorpus {
+		func() {
+			defer func() { recover() }()
+			m, err := ParseString(c.name+".ll", c.src)
+			if err != nil {
+				return
+			}
+			seen := map[string]bool{}
+			for _, td := range m.TypeDefs {
+				if seen[td.Name()] {
+					fails++
+					fmt.Printf("REPLAY-FAIL corpus %s: the module lists two type definitions named %%%s (a type alias `%%a = type %%b` is listed under the name of its target, with an empty body)\n", c.name, td.Name())
+				}
+				seen[td.Name()] = true
+			}
+		}()
+	}
 	fmt.Printf("REPLAY-SAMPLE corpus of %d modules, e.g. %s\n", len(verifCorpus), verifCorpus[4].name)
 	fmt.Printf("REPLAY-CASES %d\n", cases)
 	if fails > 0 {
@@ -454,7 +473,7 @@ func TestVerifC04(t *testing.T) {
 	}
 }
 
-var verifC04BlockRef = regexp.MustCompile(`(blockaddress\(@[-a-zA-Z$._0-9]+, %[-a-zA-Z$._0-9]+\)|uselistorder_bb @[-a-zA-Z$._0-9]+, %[-a-zA-Z$._0-9]+)`)
+var verifC04BlockRef = regexp.MustCompile(`(blockaddress\(@[-a-zA-Z$._0-9]+, %[-a-zA-Z$._0-9]+\)|uselistorder_bb @[-a-zA-Z$._0-9]+, %[-a-zA-Z$._0-9]+|, ![a-zA-Z_.][-a-zA-Z$._0-9]* ![0-9]+)`)
 
 var verifC05Tok = regexp.MustCompile(`(@|%|\$|!)([-a-zA-Z$._][-a-zA-Z$._0-9]*|[0-9]+)`)
 
@@ -568,6 +587,11 @@ func TestVerifC05(t *testing.T) {
 		{"unnamed function @0 defined twice", "define void @0() {\n\tret void\n}\ndefine void @0() {\n\tret void\n}\n"},
 		{"unnamed local %1 defined twice", "define i32 @f() {\n\t%1 = add i32 1, 2\n\t%1 = add i32 1, 2\n\tret i32 %1\n}\n"},
 		{"unnamed parameter %0 defined twice", "define void @f(i32 %0, i32 %0) {\n\tret void\n}\n"},
+		{"unnamed instruction %0 after the entry block took %0", "define i32 @f() {\n\t%1 = add i32 1, 2\n\t%0 = add i32 1, 2\n\tret i32 %0\n}\n"},
+		{"parameter name defined twice in a declaration", "declare void @f(i32 %x, i32 %x)\n"},
+		{"type opaque defined twice", "%a = type opaque\n%a = type opaque\n"},
+		{"type redefined after opaque", "%a = type opaque\n%a = type { i32 }\n"},
+		{"undefined type in a preallocated attribute", "declare void @f() preallocated(%undef)\n"},
 		{"local used in other function", "define i32 @f(i32 %x) {\n\t%y = add i32 %x, 1\n\tret i32 %y\n}\ndefine i32 @g() {\n\tret i32 %y\n}\n"},
 	} {
 		try("fault "+f.name, f.src)
@@ -577,7 +601,7 @@ func TestVerifC05(t *testing.T) {
 	if _, err := ParseString("attr.ll", "define void @f() #7 {\n\tret void\n}\n"); err != nil {
 		fail("undefined attribute group ID must be accepted (documented exception): %v", err)
 	}
-	fmt.Printf("REPLAY-SAMPLE faults injected into %d corpus modules plus 22 hand-written faults\n", len(verifCorpus))
+	fmt.Printf("REPLAY-SAMPLE faults injected into %d corpus modules plus 27 hand-written faults\n", len(verifCorpus))
 	fmt.Printf("REPLAY-CASES %d\n", cases)
 	if fails > 0 {
 		t.Fatalf("%d failures", fails)
